@@ -51,7 +51,7 @@ def level_job(N, it0, w0, with_inverse=True):
         ex.assume(z3.And(x.t >= 0, x.t <= 1, d.t >= 0, d.t < 1, r.t > 0))
         y0 = [ex.real('y%d' % i) for i in range(N)]
         d2, r2, it2, iw2, iis, y2 = evo.fwd_level(ev, x, d, r, itc, iw, y0)
-        ex.tag('x=1' if ex.find(x.t == 1) and not ex.find(x.t < 1) else 'x<1')
+        ex.tag('x<1' if isinstance(iis, core.Sym) else 'x=1')
         # ---- A
         ex.prove(T(r2) == r.t / 2, 'A: r halves')
         for i in range(N):
@@ -110,7 +110,12 @@ def box_job(N):
         y = [ex.real('y%d' % i) for i in range(N)]
         for i in range(N):
             ex.assume(z3.And(a[i].t < b[i].t, y[i].t > -F(1, 2), y[i].t < F(1, 2)))
-        ev = evo.mk_evolvent(N, 3, a, b)
+        if ex.paths % 2 == 0:
+            ev = evo.mk_evolvent(N, 3, a, b)
+        else:                       # re-targeted object: constructed for another box, then SetBounds
+            ev = evo.mk_evolvent(N, 3, [ex.real('a_old%d' % i) for i in range(N)], [ex.real('b_old%d' % i) for i in range(N)])
+            ev.SetBounds(a, b)
+            ex.tag('SetBounds')
         ev.yValues = evo.shims.SArr(y, 'f')
         ev._Evolvent__TransformP2D()
         for i in range(N):
@@ -120,6 +125,7 @@ def box_job(N):
         return None
     ex = Explorer(mode='EXACT', logic='QF_NRA', name='BOX N=%d' % N, timeout_ms=60000)
     ex.explore(h, sample_every=1)
+    ex.explore(h, sample_every=1)       # second pass: the SetBounds variant (ex.paths is now odd)
     s = ex.summary()
     s['job'] = 'box-clause N=%d' % N
     s['bounds'] = {'N': N, 'lower<upper': 'symbolic reals', '|y|<1/2': 'symbolic'}
@@ -133,7 +139,12 @@ def n1_job():
         x = ex.real('x')
         m = 1 + (ex.paths % 3)
         ex.assume(z3.And(a.t < b.t, x.t >= 0, x.t <= 1))
-        ev = evo.mk_evolvent(1, m, [a], [b])
+        if ex.paths % 2 == 0:
+            ev = evo.mk_evolvent(1, m, [a], [b])
+        else:
+            ev = evo.mk_evolvent(1, m, [ex.real('a_old')], [ex.real('b_old')])
+            ev.SetBounds([a], [b])
+            ex.tag('SetBounds')
         y = ev.GetImage(x)
         out = T(y[0])
         ex.prove(out == a.t + x.t * (b.t - a.t), 'N1: affine')
@@ -142,6 +153,7 @@ def n1_job():
         ex.prove(z3.Implies(x.t == 0, out == a.t), 'N1: x=0 maps to the lower end')
         return None
     ex = Explorer(mode='EXACT', logic='QF_NRA', name='N1', timeout_ms=60000)
+    ex.explore(h, sample_every=1)
     ex.explore(h, sample_every=1)
     s = ex.summary()
     s['job'] = 'N=1 affine map'
@@ -165,14 +177,18 @@ def whole_job(N, m, part, parts):
         x = ex.real('x')
         lo, hi = F(part, parts), F(part + 1, parts)
         ex.assume(z3.And(x.t >= lo, x.t < hi) if part < parts - 1 else z3.And(x.t >= lo, x.t <= 1))
-        ev = evo.mk_evolvent(N, m, lower, upper)
+        if part % 2 == 0:
+            ev = evo.mk_evolvent(N, m, lower, upper)
+        else:                       # an object constructed for another box and re-targeted with SetBounds
+            ev = evo.mk_evolvent(N, m, [-7.0] * N, [9.0 + c for c in range(N)])
+            ev.SetBounds(lower, upper)
         y = ev.GetImage(x)
         mv = ex.model_values()
         xv = core.frac(mv['x'])
         i = min(int(xv * K), K - 1)
         # the whole path lies in subinterval i (or is the point x = 1)
         if xv == 1:
-            ok = ex.prove(x.t == 1, 'WHOLE: the end-point path contains only x = 1')
+            ok = ex.prove(x.t >= F(K - 1, K), 'WHOLE: the end-point path stays inside the last subinterval', {'N': N, 'm': m})
             ex.tag('x=1')
         else:
             ok = ex.prove(z3.And(x.t >= F(i, K), x.t < F(i + 1, K)), 'WHOLE: a path stays inside one subinterval',
@@ -270,17 +286,30 @@ def main():
                 run.confirmed('C07:whole:N=%d,m=%d:%s' % (N, m, problems[0][:40]), 'GetImage N=%d m=%d: %s | native: %s' % (N, m, problems, out.strip()[-300:]), rp)
             else:
                 run.unconfirmed('whole N=%d m=%d: %s' % (N, m, problems), out[-300:])
-    # ---- candidates -> native replay
-    done = set()
+    # ---- candidates -> native replay (one replay per (obligation kind, N), preferring candidates that carry a point x)
+    groups = {}
     for r, c in run.candidates():
         d = c.get('detail', {})
-        N = d.get('N')
+        key = (c['label'].split(':')[0], d.get('N'))
+        best = groups.get(key)
+        rank = (1 if d.get('x_outside_last_subinterval') else 0, 1 if d.get('x') else 0)
+        if best is None or rank > best[0]:
+            groups[key] = (rank, c)
+    for (kind, N), (_, c) in sorted(groups.items(), key=lambda kv: str(kv[0])):
+        d = c.get('detail', {})
         lab = c['label']
-        key0 = (lab[:1], N, d.get('m'))
-        if key0 in done:
+        if kind in ('N1', 'BOX'):
+            rp = n1_box_replay(run, c)
+            ok, out = run.run_replay(rp)
+            if ok:
+                run.confirmed('C07:%s' % lab[:30], '%s fails: %s' % (lab, out.strip()[-300:]), rp)
+            else:
+                run.unconfirmed(lab, (out or '')[-300:])
             continue
-        done.add(key0)
-        if lab.startswith('C:') and d.get('x_outside_last_subinterval'):
+        if N is None:
+            run.unconfirmed(lab, 'no dimension recorded')
+            continue
+        if d.get('x_outside_last_subinterval'):
             m = d['m']
             rp = evo.point_replay(run, 'endpoint-N%d-m%d' % (N, m), N, m, [d['x_outside_last_subinterval']])
             ok, out = run.run_replay(rp)
@@ -288,18 +317,7 @@ def main():
                 run.confirmed('C07:__GetYonX:endpoint-rule', 'a point x<1 outside the last subinterval is treated like x=1 (N=%d, m=%d, x=%s): %s'
                               % (N, m, d['x_outside_last_subinterval'], out.strip()[-300:]), rp)
                 continue
-        if lab.startswith('N1') or lab.startswith('BOX'):
-            rp = n1_box_replay(run, c)
-            ok, out = run.run_replay(rp)
-            if ok:
-                run.confirmed('C07:%s' % lab[:30], '%s fails: %s' % (lab, out.strip()[-300:]), rp)
-            else:
-                run.unconfirmed(lab, out[-300:])
-            continue
-        if N is None:
-            run.unconfirmed(lab, 'no dimension recorded')
-            continue
-        mmax = d.get('m') or max(1, min(4, 13 // N))
+        mmax = min(d.get('m') or 99, max(1, min(4, 13 // N)))
         xs = [d['x']] if d.get('x') else []
         rp = evo.oracle_replay(run, 'lemma-N%d' % N, N, mmax, 'C07', xs)
         ok, out = run.run_replay(rp)
@@ -311,7 +329,7 @@ def main():
     run.finish('for every orientation state and digit the sliced forward level moves to a distinct sub-cell centre that the sliced inverse '
                'level decodes (=> index -> cell is a bijection onto the 2^m grid at every density); end point only for x=1; images strictly '
                'inside symbolic boxes; bounded whole-function GetImage partitions [0,1] into the 2^(Nm) subintervals with distinct cell centres',
-               vacuity=['x<1', 'x=1', 'interior'])
+               vacuity=['x<1', 'x=1', 'interior', 'SetBounds'])
 
 
 N1_BOX_REPLAY = r'''
@@ -326,16 +344,23 @@ g = lambda k: float(F(MODEL[k]))
 bad = 0
 if LABEL.startswith('N1'):
     a, b, x = g('a'), g('b'), g('x')
-    y = float(Evolvent([a], [b], 1, 3).GetImage(x)[0])
+    if 'a_old' in MODEL:
+        ev = Evolvent([g('a_old')], [g('b_old')], 1, 3); ev.SetBounds([a], [b])
+    else:
+        ev = Evolvent([a], [b], 1, 3)
+    y = float(ev.GetImage(x)[0])
     exp = a + x * (b - a)
     tol = 1e-9 * max(1.0, abs(a), abs(b))
     if not (a - tol <= y <= b + tol) or abs(y - exp) > tol:
         print('REPRODUCED C07 N=1: image of x=%r in [%r,%r] is %r, expected %r' % (x, a, b, y, exp)); bad = 1
 else:
-    N = len([k for k in MODEL if k.startswith('a')])
+    N = len([k for k in MODEL if k.startswith('a') and k[1:].isdigit()])
     a = [g('a%d' % i) for i in range(N)]; b = [g('b%d' % i) for i in range(N)]
     for m in (1, 2, 3):
-        e = Evolvent(a, b, N, m)
+        if 'a_old0' in MODEL:
+            e = Evolvent([g('a_old%d' % i) for i in range(N)], [g('b_old%d' % i) for i in range(N)], N, m); e.SetBounds(a, b)
+        else:
+            e = Evolvent(a, b, N, m)
         for i in range(2 ** (N * m)):
             y = e.GetImage((i + 0.5) / 2 ** (N * m))
             for c in range(N):
